@@ -224,4 +224,54 @@ theorem ntruSolve_sound (xg : Int → Int → Int × Int × Int) (hx : ∀ a b, 
     rw [ev_ntruLhs _ hn ρ hρ f g _ _ bl1 bl2, ev_ntruLhs _ hn ρ hρ f g _ _ l1 l2] at hinv
     rw [hinv]
     exact hlift
+
+/-! ### the extended gcd of the base case -/
+
+theorem xgcdGo_inv (a b : Int) : ∀ (n : Nat) (x r os s ot t : Int), r.natAbs = n →
+    os * a + ot * b = x → s * a + t * b = r →
+    (xgcdGo x r os s ot t).2.1 * a + (xgcdGo x r os s ot t).2.2 * b = (xgcdGo x r os s ot t).1 := by
+  intro n
+  induction n using Nat.strongRecOn with
+  | _ n ih =>
+    intro x r os s ot t hn h1 h2
+    unfold xgcdGo
+    by_cases h : r = 0
+    · simp only [h, dite_true]; exact h1
+    · simp only [h, dite_false]
+      apply ih _ (by rw [← hn]; exact xgcd_dec x r h) _ _ _ _ _ _ rfl h2
+      rw [← h1, ← h2]
+      simp only [Int.sub_mul, Int.mul_add, Int.mul_assoc]
+      omega
+
+theorem xgcdGo_gcd : ∀ (n : Nat) (x r os s ot t : Int), r.natAbs = n →
+    (xgcdGo x r os s ot t).1.natAbs = Nat.gcd x.natAbs r.natAbs := by
+  intro n
+  induction n using Nat.strongRecOn with
+  | _ n ih =>
+    intro x r os s ot t hn
+    unfold xgcdGo
+    by_cases h : r = 0
+    · simp only [h, dite_true]; simp
+    · simp only [h, dite_false]
+      rw [ih _ (by rw [← hn]; exact xgcd_dec x r h) _ _ _ _ _ _ rfl]
+      have : x - Int.tdiv x r * r = Int.tmod x r := by rw [Int.tmod_def, Int.mul_comm]
+      rw [this, Int.natAbs_tmod, Nat.gcd_comm x.natAbs, Nat.gcd_rec r.natAbs x.natAbs, Nat.gcd_comm]
+
+/-- Bézout's identity for the loop of `xgcd`, for all integers (termination is part of the definition) -/
+theorem xgcd_bezout (a b : Int) : (xgcd a b).2.1 * a + (xgcd a b).2.2 * b = (xgcd a b).1 :=
+  xgcdGo_inv a b _ a b 1 0 0 1 rfl (by omega) (by omega)
+
+/-- and its first component is the gcd up to sign -/
+theorem xgcd_gcd (a b : Int) : (xgcd a b).1.natAbs = Int.gcd a b :=
+  xgcdGo_gcd _ a b 1 0 0 1 rfl
+
+/-- the base case as the driver runs it is the base case of `ntruSolve` with `xg := xgcd` -/
+theorem ntruBase_eq (ks : Nat → List Int → List Int → List (List Int)) (a b : Int) :
+    ntruSolve xgcd ks 0 [a] [b] = (ntruBase a b).map fun p => ([p.1], [p.2]) := by
+  simp only [ntruSolve, ntruBase]
+  generalize xgcd a b = t
+  obtain ⟨d, u, v⟩ := t
+  simp only
+  split <;> rfl
+
 end Falcon.RingZ
